@@ -359,6 +359,12 @@ def invalidations(d, rng):
         mut("key-note-far", key_mut(str(rng.choice([256, 300, 511, 65536 + 60]))))
         mut("key-offset-far", key_mut("60,%d" % rng.choice([256, 257, 271, 65536])))
         mut("key-offset-high", key_mut("60,16"))
+        # the same invalid offsets on a key whose note is spelled by name
+        mut("key-offset-high-named", key_mut(rng.choice(["d0,16", "C3,16", "c#3,17", "g8,255"])))
+        mut("key-offset-negative-named", key_mut(rng.choice(["d0,-1", "c3,-5"])))
+        mut("key-offset-far-named", key_mut(rng.choice(["d0,300", "c3,256", "a#2,65536"])))
+        mut("key-offset-text-named", key_mut("c3,x"))
+        mut("key-three-fields-named", key_mut("c3,1,2"))
         mut("key-offset-negative", key_mut("60,-1"))
         mut("key-offset-text", key_mut("60,x"))
         mut("key-three-fields", key_mut("60,1,2"))
